@@ -48,7 +48,7 @@ func reg(id string, c propCfg) { props[id] = c }
 func init() {
 	m := time.Minute
 	reg("C01", propCfg{Quick: tierCfg{Checks: 4000, Timeout: 8 * m}, Thor: tierCfg{Checks: 300000, Timeout: 60 * m, FuzzTime: 4 * m}, Fuzz: []string{"FuzzLoad"}})
-	reg("C02", propCfg{Quick: tierCfg{Checks: 30000, Timeout: 8 * m}, Thor: tierCfg{Checks: 3000000, Timeout: 60 * m, FuzzTime: 3 * m}, Fuzz: []string{"FuzzParse"}})
+	reg("C02", propCfg{Quick: tierCfg{Checks: 200000, Timeout: 8 * m}, Thor: tierCfg{Checks: 3000000, Timeout: 60 * m, FuzzTime: 3 * m}, Fuzz: []string{"FuzzParse"}})
 	reg("C03", propCfg{Quick: tierCfg{Checks: 20000, Timeout: 8 * m}, Thor: tierCfg{Checks: 2000000, Timeout: 60 * m, FuzzTime: 3 * m}, Fuzz: []string{"FuzzBuild"}})
 	reg("C04", propCfg{Quick: tierCfg{Checks: 6000, Timeout: 8 * m}, Thor: tierCfg{Checks: 500000, Timeout: 60 * m}})
 	reg("C05", propCfg{NeedCLI: true, Quick: tierCfg{Checks: 480, Timeout: 8 * m}, Thor: tierCfg{Checks: 40000, Timeout: 60 * m}})
@@ -645,17 +645,21 @@ func writeEvidence(file, id, tier string, seed int64, parts []partial, shards in
 			}
 		}
 	}
-	// samples: round-robin over shards, at most 10
-	for round := 0; len(samples) < 10; round++ {
-		any := false
-		for _, p := range parts {
-			if round < len(p.Samples) && len(samples) < 10 {
-				samples = append(samples, p.Samples[round])
-				any = true
+	// samples: at most 10, rotating through the shards' lists so that late
+	// (random-tier) samples are represented as well as early (enumerated) ones
+	seenSample := map[string]bool{}
+	for round := 0; round < 12 && len(samples) < 10; round++ {
+		for i, p := range parts {
+			if len(p.Samples) == 0 || len(samples) >= 10 {
+				continue
 			}
-		}
-		if !any {
-			break
+			idx := (len(p.Samples) - 1 - (i+round)%len(p.Samples))
+			b, _ := json.Marshal(p.Samples[idx])
+			if seenSample[string(b)] {
+				continue
+			}
+			seenSample[string(b)] = true
+			samples = append(samples, p.Samples[idx])
 		}
 	}
 	p0 := parts[0]
